@@ -61,6 +61,9 @@ type c01Knobs struct {
 	AADecoy bool `json:"attribute_authority_decoy,omitempty"`
 	// Verifier: the application installs a saml.SignatureVerifier (one that validates exactly like the library)
 	Verifier bool `json:"custom_signature_verifier,omitempty"`
+	// SKITwin: the IdP's certificate (key 0) carries a SubjectKeyIdentifier, as openssl-made ones do, and Mallory's own certificate
+	// (key 2, self-signed, her key) copies its subject and that identifier. Which certificate is which is decided by its bytes.
+	SKITwin bool `json:"mallory_copied_subject_and_key_identifier,omitempty"`
 }
 
 type c01Op struct {
@@ -173,6 +176,7 @@ func genTamper(g *Rng, tier string) *Plan {
 	k.DupCert = strings.HasPrefix(k.Trust, "md") && g.Bool(0.3)
 	k.AADecoy = g.Bool(0.3)
 	k.Verifier = g.Bool(0.12)
+	k.SKITwin = g.Bool(0.15)
 	p := &Plan{Knobs: mustJSON(k)}
 	n := 1 + g.PickW(5, 3, 2)
 	rotateAt, cur := -1, k.Trust
@@ -1770,6 +1774,12 @@ func execTamper(t *testing.T, p *Plan) *Result {
 		k.Trust = "md1"
 	}
 	installRand(p)
+	if k.SKITwin {
+		idp0, mal2 := rsaKeys[0], rsaKeys[2]
+		rsaKeys[0], rsaKeys[2] = rsaSKI, rsaSKIMal
+		defer func() { rsaKeys[0], rsaKeys[2] = idp0, mal2 }()
+		res.probe("mallory-copied-subject-and-key-identifier")
+	}
 	spv := c01NewSP(k)
 	w := &c01World{trust: k.Trust, blobs: map[string]*etree.Element{}}
 	start := time.Now()
